@@ -106,6 +106,7 @@ def simulate_and_monitor(ctx, spec, case, monitors, nontrivial=None, key_extra='
     runs = B.run_schedule(b)
     ctx.current_built = b
     ctx.count('rejected_run_calls', getattr(b, 'rejected_runs', 0))
+    ctx.count('bystander_model_operations', getattr(b, 'bystander_ops', 0))
     if getattr(b, 'rejected_run_effects', None):
         ctx.violation('sanitizer:rejected-run-left-traces', {'effects': b.rejected_run_effects[:3]}, case)
         return None
